@@ -540,31 +540,69 @@ PRESENTED = {'how': 'plain', 'n': 0}
 SECTION_HEAD = 'earlier = 1\nprint(earlier + earlier, [earlier] * 2)\nfor e in [earlier]:\n    earlier = e\n##### Part 1'
 
 
-def present(ctx, src, how=None):
+def present(ctx, src, how=None, fresh=False):
     """Install `src` as the program the questions are about and return the text that is now the submission's main code.
-    'plain': contextualize_report(src).  'second-section': src is the part after the first marker of a sectioned file whose first
-    part was verified by the Source tool (which keeps that part's tree); the grader has moved to the next section and asks CAIT
-    before (or without) verifying again - the answers are about the CURRENT section's text."""
+    'plain': contextualize_report(src).
+    'second-section': src is the part after the first marker of a sectioned file whose first part was verified by the Source tool
+        (which keeps that part's tree); the grader has moved to the next section and asks CAIT before (or without) verifying again -
+        the answers are about the CURRENT section's text.
+    'after-verifying-other-code': the grader had the Source tool check some other text (verify(code)) after attaching the submission.
+    'after-sections-were-stopped': src is the whole file again after its sections were walked (and the last one verified).
+    'attached-without-clearing': an earlier submission was set and verified on the report, then src attached with clear=False."""
     from pedal.core.commands import clear_report, contextualize_report
     from pedal.core.report import MAIN_REPORT
     clear_report()
     if how is None:
         PRESENTED['n'] += 1
-        how = 'second-section' if PRESENTED['n'] % 4 == 0 and '##### Part' not in src and '\r' not in src and '\x0c' not in src else 'plain'
+        how = {0: 'second-section', 4: 'after-verifying-other-code', 8: 'after-sections-were-stopped', 10: 'attached-without-clearing'}.get(PRESENTED['n'] % 12, 'plain')
+        fresh = True
+    if fresh:
+        if '##### Part' in src or '\r' in src or '\x0c' in src:
+            how = 'plain'
         if how == 'second-section':
             src = '\n' + src
+        if how == 'after-sections-were-stopped':
+            src = src + ('' if src.endswith('\n') else '\n') + '##### Part 1\nonly_the_last_part = 1\n'
+    done = None
     if how == 'second-section':
         from pedal.source import set_source, verify, next_section
         set_source(SECTION_HEAD + src, sections=True, independent=True)
         verify()
         next_section()
         if MAIN_REPORT.submission.main_code == src:
-            PRESENTED['how'] = how
-            ctx.seen('how_the_program_is_presented', how)
+            done = how
             ctx.count('programs_presented_as_a_later_section')
-            return src
-        clear_report()      # the text did not split as intended (marker-like lines of its own): plain presentation
-        src = src[1:]
+        else:
+            clear_report()      # the text did not split as intended (marker-like lines of its own): plain presentation
+            src = src[1:]
+    elif how == 'after-verifying-other-code':
+        from pedal.source import verify
+        contextualize_report(src)
+        verify('other_code_entirely = 99\nprint(other_code_entirely)\n')
+        done = how
+    elif how == 'after-sections-were-stopped':
+        # the file has one marker; both parts were visited and verified, then the sections were stopped: the whole file is the
+        # program again
+        from pedal.source import set_source, verify, next_section
+        from pedal.source.sections import stop_sections
+        set_source(src, sections=True, independent=True)
+        verify()
+        next_section()
+        verify()
+        stop_sections()
+        if MAIN_REPORT.submission.main_code == src:
+            done = how
+        else:
+            clear_report()
+    elif how == 'attached-without-clearing':
+        from pedal.source import set_source
+        set_source('an_earlier_submission = 1\nprint(an_earlier_submission)\n')
+        contextualize_report(src, clear=False)
+        done = how
+    if done:
+        PRESENTED['how'] = done
+        ctx.seen('how_the_program_is_presented', done)
+        return src
     PRESENTED['how'] = 'plain'
     ctx.seen('how_the_program_is_presented', 'plain')
     contextualize_report(src)
